@@ -23,9 +23,12 @@ def radius(el):
 
 def gen_cell(rng, system):
     a, b, c = (round(rng.uniform(7.5, 16), 3) for _ in range(3))
+    if system == 'tri' and rng.random() < 0.5:
+        # very unequal axes: every off-diagonal term of the metric tensor carries weight
+        a, b, c = rng.sample([round(rng.uniform(7.5, 9), 3), round(rng.uniform(15, 19), 3), round(rng.uniform(10, 13), 3)], 3)
     if system == 'tri':
         while True:
-            al, be, ga = (round(rng.uniform(72, 108), 2) for _ in range(3))
+            al, be, ga = (round(rng.uniform(66, 116), 2) for _ in range(3))
             ca, cb, cg = (math.cos(math.radians(x)) for x in (al, be, ga))
             if 1 + 2 * ca * cb * cg - ca * ca - cb * cb - cg * cg > 0.5:
                 break
@@ -120,7 +123,8 @@ def gen_structure(rng, name=None, natoms=None):
                 if ln > 0.2:
                     break
             # contact length relative to the bonding limit 1.2 (r1 + r2): mostly bonded, some just beyond
-            r = rng.uniform(0.5, 1.1) * 1.2 * (radius(els[bi]) + radius(els[j + 1]))
+            # (one contact in five is close to the limit, where a small error in the metric decides)
+            r = (rng.uniform(0.93, 0.995) if rng.random() < 0.2 else rng.uniform(0.5, 1.1)) * 1.2 * (radius(els[bi]) + radius(els[j + 1]))
             mol.append(mv(Mi, [base[k] + v[k] / ln * r for k in range(3)]))
         for p, el in zip(mol, els):
             if rng.random() < 0.15:
